@@ -329,11 +329,31 @@ def users_ops(ctx):
         G = rand_gint(nrng, (N0, dimA * dimB, dimA * dimB), -3, 3) * 12          # multiples of 12: the final /kext stays exact
         B = rand_gint(nrng, (dimB, dimB, L, L), -3, 3)
         sel = sorted(set([0, N0 - 1, int(nrng.integers(N0))]))
+        calls = []
+
+        def fake_gm(*a, **kw):
+            calls.append(('all_gellmann_matrix', a, tuple(sorted(kw.items())))); return G.copy()
+
+        def fake_idx(*a, **kw):
+            calls.append(('get_partial_trace_ABk_to_AB_index', a, tuple(sorted(kw.items())))); return B.copy()
         try:
-            with patched(numqi.gellmann, 'all_gellmann_matrix', lambda d_, with_I=True, tensor_n=1: G.copy()), \
-                 patched(numqi.dicke, 'get_partial_trace_ABk_to_AB_index', lambda kk, dd, return_tensor=False: B.copy()):
+            with patched(numqi.gellmann, 'all_gellmann_matrix', fake_gm), patched(numqi.dicke, 'get_partial_trace_ABk_to_AB_index', fake_idx):
                 rb = ME.get_ABk_gellmann_preimage_op(dimA, dimB, k, kind='boson')
+                calls_b = list(calls); calls.clear()
                 rs = ME.get_ABk_gellmann_preimage_op(dimA, dimB, k, kind='symmetric')
+                calls_s = list(calls)
+            # the intercepted calls must carry exactly the arguments the model assumes: Gell-Mann matrices of dimension dimA*dimB
+            # without the identity, and the tensor form of the table for (kext, dimB)
+            norm = lambda c: (c[0], tuple(int(x) for x in c[1]), dict(c[2]))
+            want_gm = ('all_gellmann_matrix', (dimA * dimB,), {'with_I': False})
+            ok_b = sorted(map(repr, map(norm, calls_b))) == sorted(map(repr, [want_gm, ('get_partial_trace_ABk_to_AB_index', (k, dimB), {'return_tensor': True})]))
+            ok_s = [repr(norm(c)) for c in calls_s] == [repr(want_gm)]
+            if not ok_b:
+                rb = 'wrong-arguments:' + repr(calls_b)[:200]
+            if not ok_s:
+                rs = 'wrong-arguments:' + repr(calls_s)[:200]
+            if not isinstance(rb, str) and rb.shape != (N0, dimA * L, dimA * L):
+                rb = f'wrong-shape:{rb.shape}'
         except Exception as e:
             rb = rs = 'error:' + type(e).__name__
         for g in sel:
@@ -530,6 +550,34 @@ def probe(ctx):
             ctx.fail('dicke-tensor', f'get_partial_trace_ABk_to_AB_index(return_tensor=True) != <r|D_a><D_b|s> for dimB={dimB}, k={k}', rep)
         else:
             ctx.probe_ok(('red', dimA, dimB, k))
+    # (e2) get_ABk_gellmann_preimage_op, UNPATCHED: <psi|preimage(G)|psi> = Tr(G rho_AB) with rho_AB from the explicit embedding (boson)
+    #      resp. the average over the copies of explicit partial traces (symmetric)
+    import numqi.maximum_entropy._internal as ME
+    for dimA, dimB, k in ([(2, 2, 2), (2, 3, 2), (2, 2, 3)] if ctx.quick() else [(2, 2, 2), (2, 3, 2), (3, 2, 2), (2, 2, 3), (2, 3, 3), (2, 2, 4)]):
+        rep = dict(op='get_ABk_gellmann_preimage_op', dimA=dimA, dimB=dimB, kext=k, seed=ctx.np_seed + 2)
+        try:
+            Gm = numqi.gellmann.all_gellmann_matrix(dimA * dimB, with_I=False)
+            basis = D_.get_dicke_basis(k, dimB); L = basis.shape[0]
+            psi = nrng.normal(size=(dimA, L)) + 1j * nrng.normal(size=(dimA, L)); psi /= np.linalg.norm(psi)
+            rho = explicit_reduction(psi, basis, dimA, dimB, k)
+            opb = ME.get_ABk_gellmann_preimage_op(dimA, dimB, k, kind='boson')
+            eb = max(abs(np.vdot(psi.reshape(-1), opb[g] @ psi.reshape(-1)) - np.trace(Gm[g] @ rho)) for g in range(Gm.shape[0]))
+            N = dimA * dimB ** k
+            Psi = nrng.normal(size=N) + 1j * nrng.normal(size=N); Psi /= np.linalg.norm(Psi)
+            big = np.outer(Psi, Psi.conj())
+            dims = (dimA,) + (dimB,) * k
+            rhos = [explicit_partial_trace(big, dims, [0, c]) for c in range(1, k + 1)]
+            ops_ = ME.get_ABk_gellmann_preimage_op(dimA, dimB, k, kind='symmetric')
+            es = max(abs(np.vdot(Psi, ops_[g] @ Psi) - sum(np.trace(Gm[g] @ r) for r in rhos) / k) for g in range(Gm.shape[0]))
+            shape_ok = opb.shape == (Gm.shape[0], dimA * L, dimA * L) and ops_.shape == (Gm.shape[0], N, N)
+        except Exception as e:
+            ctx.fail('preimage-op-raises', f'{type(e).__name__}: {e}', rep); continue
+        if not shape_ok or eb > 1e-12:
+            ctx.fail('preimage-op-boson', f"<psi|preimage(G)|psi> != Tr(G rho_AB) for kind='boson' (error {eb:.3e}, dimA={dimA}, dimB={dimB}, kext={k})", rep)
+        elif es > 1e-12:
+            ctx.fail('preimage-op-symmetric', f"<Psi|preimage(G)|Psi> != mean_c Tr(G rho_(A,B_c)) for kind='symmetric' (error {es:.3e}, dimA={dimA}, dimB={dimB}, kext={k})", rep)
+        else:
+            ctx.probe_ok(('preimage', dimA, dimB, k))
     # (f) history of calls: the index tables are rebuilt on every call (no lru_cache in dicke.py); results must not alias each
     # other, so mutating a returned array cannot corrupt a later call (interleaved with other (n,d) and with the tensor form)
     hist = []
